@@ -5,6 +5,7 @@
 // themselves in c01::registry().
 #include "c01_harness.hpp"
 #include <cfenv>
+#include <unistd.h>
 
 namespace c01{
 std::map<std::size_t, Entry>& registry(){ static std::map<std::size_t, Entry> r; return r; }
@@ -75,38 +76,44 @@ static std::string diffStore(Store const& a, Store const& b){
 
 static unsigned long inexactCount = 0;
 int main(){
+	// protocol lines go to the original stdout; anything a library prints to fd 1 (OpenBLAS xerbla) goes to stderr
+	int protocolFd = dup(1); dup2(2, 1);
+	FILE* protocol = fdopen(protocolFd, "w");
+	std::ostringstream line_out;
 	Store S;
 	std::string line;
-	while(std::getline(std::cin, line)){
+	while(true){
+		if(!line_out.str().empty()){ fputs(line_out.str().c_str(), protocol); line_out.str(""); }
+		if(!std::getline(std::cin, line)) break;
 		std::vector<std::string> t = vh::tokens(line);
-		if(t.empty()){ std::cout << "\n"; continue; }
-		if(t[0] == "new" && t.size() == 1){ S = Store(); std::cout << "ok\n"; continue; }
+		if(t.empty()){ line_out << "\n"; continue; }
+		if(t[0] == "new" && t.size() == 1){ S = Store(); line_out << "ok\n"; continue; }
 		if(t[0] == "vec" && t.size() >= 2){
 			std::size_t n = std::stoull(t[1]);
-			if(t.size() != n + 2){ std::cout << "bad-op\n"; continue; }
+			if(t.size() != n + 2){ line_out << "bad-op\n"; continue; }
 			Vec v(n); bool ok = true;
 			for(std::size_t i = 0; i != n; ++i){ double x; ok = ok && parseNum(t[2+i], x); v(i) = x; }
-			if(!ok){ std::cout << "bad-op\n"; continue; }
-			S.v.push_back(v); std::cout << "ok\n"; continue;
+			if(!ok){ line_out << "bad-op\n"; continue; }
+			S.v.push_back(v); line_out << "ok\n"; continue;
 		}
 		if(t[0] == "mat" && t.size() >= 4){
 			std::size_t n1 = std::stoull(t[2]), n2 = std::stoull(t[3]);
-			if(t.size() != n1*n2 + 4){ std::cout << "bad-op\n"; continue; }
+			if(t.size() != n1*n2 + 4){ line_out << "bad-op\n"; continue; }
 			bool ok = true;
 			if(t[1] == "A"){ MatA m(n1,n2); for(std::size_t i = 0; i != n1; ++i) for(std::size_t j = 0; j != n2; ++j){ double x; ok = ok && parseNum(t[4+i*n2+j], x); m(i,j) = x; } S.A.push_back(m); }
 			else if(t[1] == "B"){ MatB m(n1,n2); for(std::size_t i = 0; i != n1; ++i) for(std::size_t j = 0; j != n2; ++j){ double x; ok = ok && parseNum(t[4+i*n2+j], x); m(i,j) = x; } S.B.push_back(m); }
 			else ok = false;
-			std::cout << (ok ? "ok\n" : "bad-op\n"); continue;
+			line_out << (ok ? "ok\n" : "bad-op\n"); continue;
 		}
 		if((t[0] == "stmt" || t[0] == "red") && t.size() >= 3){
 			std::size_t k = std::stoull(t[1]);
 			std::map<std::size_t, Entry>::iterator it = registry().find(k);
-			if(it == registry().end()){ std::cout << "bad-op unknown-statement\n"; continue; }
+			if(it == registry().end()){ line_out << "bad-op unknown-statement\n"; continue; }
 			Entry const& e = it->second;
 			// the op text must be the text this function was generated from
 			std::string rest; for(std::size_t i = 2; i < t.size(); ++i){ if(i > 2) rest += " "; rest += t[i]; }
 			std::string mine; { std::vector<std::string> tt = vh::tokens(e.text); for(std::size_t i = 0; i < tt.size(); ++i){ if(i) mine += " "; mine += tt[i]; } }
-			if(rest != mine){ std::cout << "bad-op text-mismatch\n"; continue; }
+			if(rest != mine){ line_out << "bad-op text-mismatch\n"; continue; }
 			std::string orc;
 			if(t[0] == "stmt"){
 				Store old = S, exp = S;
@@ -117,7 +124,7 @@ int main(){
 				bool inexact = std::fetestexcept(FE_INEXACT) != 0;
 				if(haveExp){ std::string d = diffStore(S, exp); if(!d.empty()) orc += " !oracle wrong-value:" + d; }
 				if(inexact) ++inexactCount;
-				std::cout << showStore(S) << orc << "\n";
+				line_out << showStore(S) << orc << "\n";
 			}else{
 				double want = 0; bool haveExp = true;
 				try{ want = e.redExpect(S); }catch(std::exception const& ex){ haveExp = false; orc = std::string(" !oracle precondition:") + ex.what(); }
@@ -125,12 +132,13 @@ int main(){
 				double got = e.red(S);
 				if(haveExp && !same(got, want)) orc += " !oracle wrong-reduction:" + showNum(got) + "!=" + showNum(want);
 				std::string d = diffStore(S, before); if(!d.empty()) orc += " !oracle reduction-modified-store:" + d;
-				std::cout << "R=" << showNum(got) << orc << "\n";
+				line_out << "R=" << showNum(got) << orc << "\n";
 			}
 			continue;
 		}
-		std::cout << "bad-op\n";
+		line_out << "bad-op\n";
 	}
+	fflush(protocol);
 	if(inexactCount) std::cerr << "c01: statements raising FE_INEXACT: " << inexactCount << "\n";
 	return 0;
 }
